@@ -450,6 +450,11 @@ func runCase(t *testing.T, c *sim.Case, script []int16, strict bool) (*sim.Viola
 	if maxSteps <= 0 {
 		maxSteps = 3000
 	}
+	// the budget grows with the amount of work of the case: a correct implementation with more
+	// statements per task (every statement is a scheduling point) must not run out of steps
+	if need := 1000 + 600*n*(1+c.P("twin")); maxSteps < need {
+		maxSteps = need
+	}
 	func() {
 		defer func() {
 			if r := recover(); r != nil {
